@@ -9,7 +9,7 @@
    [unmarshal_error_iter], [unmarshal_stream_error] are the decoders.  JIDs are
    their String() form; [parse] is jid.Parse and only enters through the
    premises [jid_ok]/[jid_okc] (a JID value parses to itself — property C11). *)
-From XV Require Import lib.Bytes gen.Stanza gen.StanzaAlloc C13.Xml C13.Model C13.Proofs C13.Heap C13.HeapProofs.
+From XV Require Import lib.Bytes gen.Stanza gen.StanzaAlloc C13.Xml C13.Model C13.Proofs C13.Cross C13.Heap C13.HeapProofs.
 
 (* --- well-formedness: whatever bytes the text fields hold, the emitted tokens
    are those of exactly one element whose every name position holds a proper
@@ -220,3 +220,40 @@ Theorem C13_shared_backing_array_breaks_independence :
   spec_tokens (HErr (mkse [] (str "auth") (str "item-not-found") []) []).
 Proof. exact shared_origin_aliases. Qed.
 Print Assumptions C13_shared_backing_array_breaks_independence.
+
+(* --- encoding consistently: the standard marshaller and the token path use
+   the same attribute names, name space included, and every decoder reads every
+   encoding to the same value.  xml.Unmarshal offers an attribute of any name
+   space to a field whose tag has none, so the struct decoder alone cannot tell
+   `lang=".."` from `xml:lang=".."`; the start element parser New* can.
+   [schema_ok] is checked on the struct tags the translator reads from the
+   source on every run: every attribute field is named as StartElement names it
+   — the Lang field of all three stanza types is
+   `http://www.w3.org/XML/1998/namespace lang,attr`. --- *)
+Theorem C13_struct_tags_name_attributes_as_start_element :
+  schema_ok iq_schema = true /\ schema_ok message_schema = true /\ schema_ok presence_schema = true.
+Proof. exact schema_names_are_start_names. Qed.
+Print Assumptions C13_struct_tags_name_attributes_as_start_element.
+
+Theorem C13_lang_tag_in_xml_name_space : forall k f,
+  In f (schema_of k) -> f_sel f = FLang -> f_space f = NS_XML /\ f_local f = L_lang.
+Proof. exact lang_tags_in_xml_name_space. Qed.
+Print Assumptions C13_lang_tag_in_xml_name_space.
+
+Theorem C13_two_paths_same_attribute_names : forall k v a,
+  (In a (start_attrs k v) -> exists f, aname a = start_attr_name f) /\
+  (In a (root_attrs (marshal_tree k v)) -> exists f, aname a = start_attr_name f).
+Proof. intros k v a. split; [apply start_attrs_names | apply marshal_attrs_names]. Qed.
+Print Assumptions C13_two_paths_same_attribute_names.
+
+(* all four combinations {token path, xml.Marshal} x {xml.Unmarshal, New*} agree,
+   modulo the element name space xml.Marshal drops (the known finding) *)
+Theorem C13_two_paths_cross_decode : forall k parse v,
+  jid_okc parse (s_to v) -> jid_okc parse (s_from v) -> type_defined k v = true ->
+  let r := clean_stanza (set_local v (kind_local k)) in
+  unmarshal_stanza k parse (wire [] (Elem (start_name k v) (start_attrs k v) [])) = Some r /\
+  new_of_tree k parse (wire [] (Elem (start_name k v) (start_attrs k v) [])) = Some r /\
+  unmarshal_stanza k parse (wire [] (marshal_tree k v)) = Some (set_ns r []) /\
+  new_of_tree k parse (wire [] (marshal_tree k v)) = Some (set_ns r []).
+Proof. exact four_ways_agree. Qed.
+Print Assumptions C13_two_paths_cross_decode.
